@@ -337,3 +337,12 @@ package json
 //@   ensures 1 <= result && result <= 7
 //@   ensures (result == 1) == eqlit(b.data, "object") && (result == 2) == eqlit(b.data, "array") && (result == 3) == eqlit(b.data, "string") && (result == 4) == eqlit(b.data, "integer")
 //@   ensures (result == 5) == eqlit(b.data, "float") && (result == 6) == eqlit(b.data, "boolean") && (result == 7) == eqlit(b.data, "null")
+
+// ---- Number.String (C13): sign, integer digits ("0" when there are none), "." and fraction digits ------
+
+//@ func (Number).String
+//@   property C13 C01
+//@   requires wfNumber(n)
+//@   let il := len(n.nat.data) - n.exp
+//@   ensures result == (n.neg ? "-" : "") + (il == 0 ? "0" : str(n.nat.data[:il])) + (n.exp != 0 ? "." + str(n.nat.data[il:]) : "")
+//@   no_panic
